@@ -759,7 +759,9 @@ example : (crun {} [.b2 3 4 false 24 [(0, 1, 12), (1, 2, 12)], .b2 5 9 true 30 [
 first fetcher at `Offset()`): in every reachable state, whatever the loops, the broker, the network and the superseded
 fetchers have done and do,
 * `FetchMessage` returns **the first stored record at or above `Offset()`**, and `Offset()` becomes its offset + 1;
-* `SetOffset(o)` makes `Offset() = o`, a step of a loop leaves it alone.
+* `SetOffset(o)` makes `Offset() = o`, a step of a loop leaves it alone;
+* after `Close` nothing is handed out any more (FetchMessage = io.EOF, SetOffset = io.ErrClosedPipe: the state does not
+  move), whatever is still queued and whatever the loops still push while they wind down.
 Exactly-once, in-order, gap-free delivery from the position is the iteration of the first clause. -/
 theorem reader_api (cfg : RCfg) (items : List Item) (nb : Int) (hnb : 0 ≤ nb) (hwf : LWF nb items) (o : Int)
     (ho : -2 ≤ o ∧ o ≠ -1) (es : List AEv) (hok : ∀ e ∈ es, e.ok items) (a : AS) (ms : List Rec)
@@ -773,5 +775,11 @@ example : (arun {} [.b2 3 4 false 24 [(0, 1, 12), (1, 2, 12)], .b2 5 9 true 30 [
     [.fetch, .env 1 (.initOk 3 10), .env 1 .sleepOk, .env 1 (.fetch 10 10 false), .fetch, .fetch, .setOffset 5,
      .env 1 .sleepOk, .env 1 (.fetch 1000 10 false), .setOffset 9, .env 2 (.initOk 3 10), .env 2 .sleepOk,
      .env 2 (.fetch 10 10 true), .fetch]).map (fun p => (p.2, p.1.pos)) = some ([(3, 1), (4, 2), (9, 4)], 10) := by decide
+
+/-- a run with Close: two messages, Close, the loop still pushes a round, FetchMessage hands out nothing more -/
+example : (arun {} [.b2 3 4 false 24 [(0, 1, 12), (1, 2, 12)], .b2 5 9 true 30 [(0, 3, 20), (4, 4, 20)]] { pos := -2 }
+    [.fetch, .env 1 (.initOk 3 10), .env 1 .sleepOk, .env 1 (.fetch 10 10 false), .fetch, .fetch, .close,
+     .env 1 .sleepOk, .env 1 (.fetch 1000 10 false), .fetch, .setOffset 3, .fetch]).map (fun p => (p.2, p.1.pos, p.1.closed))
+    = some ([(3, 1), (4, 2)], 5, true) := by decide
 
 end KV.C02
